@@ -1,3 +1,271 @@
-import NxModel.Bytes
-/-! driver stub for C02 (replaced when the property's model lands) -/
-def main : IO Unit := IO.println "stub C02"
+import NxModel.Prudp.L1Crypto
+import NxModel.DriverUtil
+/-!
+# driver for the L1 endpoint model (client transport / server transport), shared by C02, C04–C07
+
+All times are ticks of 2^-30 s. One line in, one line out; outputs of an op are joined by " ; ".
+
+  env <name> <transport> <version> <sigver> <cksumver> <flagsver> <accesskey hex> <fragsize> <resendTimeout> <resendLimit>
+      <pingTimeout> <maxsub> <supfuncs> <minor> <pidsize> <keysize> <ticketver> <epoch> <tzoff>
+  cli <ep> <env> <localip> <localport> <remoteip> <remoteport>
+  srv <ep> <env> <ip> <port> <stream 0|1>
+  bind <ep> <vport> <type> <key hex|none>
+  link <ep> <ip> <port> <0|1>                       stream transports: a stream client appeared / went away
+  connect <ep> <t> <vport> <type> <unrelid> <check> <sid> (none | <pid> <cid> <sessionkey hex> <internal hex>)
+  dgram <ep> <t> <fromip> <fromport> <hex> [<unrelid> <check> <sid>]
+  advance <ep> <t>
+  send <ep> <t> <conn> <sub> <hex> | sendu <ep> <t> <conn> <hex> | close|disconnect|aexit|done <ep> <t> <conn>
+  state <ep> <conn>
+  conn = `c` (the client transport's connection) or `ip:port:sport:stype` (a server-side connection)
+-/
+open Nx Nx.Prudp Nx.L1
+
+inductive Ep where
+  | cli (env : String) (t : ClientT) (loc rem : Addr)
+  | srv (env : String) (t : ServerT) (addr : Addr) (leaving : List ClientKey)
+
+structure St where
+  envs : List (String × Env) := []
+  eps : List (String × Ep) := []
+
+def lookupS {α : Type} (k : String) : List (String × α) → Option α
+  | [] => none
+  | (k', v) :: r => if k' = k then some v else lookupS k r
+
+def setS {α : Type} (k : String) (v : α) : List (String × α) → List (String × α)
+  | [] => [(k, v)]
+  | (k', v') :: r => if k' = k then (k, v) :: r else (k', v') :: setS k v r
+
+def showAddr (a : Addr) : String := s!"{a.1}:{a.2}"
+def showKey (k : ClientKey) : String := s!"{k.1.1}:{k.1.2}:{k.2.1}:{k.2.2}"
+
+def showOut (conn : String) : Out → String
+  | .emit a _ d => s!"tx {showAddr a} {hexOut d}"
+  | .deliver sub d => s!"deliver {conn} {sub} {hexOut d}"
+  | .deliverU d => s!"deliveru {conn} {hexOut d}"
+  | .eof => s!"eof {conn}"
+  | .handshake ok => s!"hs {conn} {if ok then "ok" else "fail"}"
+
+def showSOut : SOut → String
+  | .emit a _ d => s!"tx {showAddr a} {hexOut d}"
+  | .client k o => showOut (showKey k) o
+  | .started k => s!"started {showKey k}"
+
+def joinOuts (l : List String) (err : Option Err) : String :=
+  let l := match err with | some e => l ++ ["err " ++ e.name] | none => l
+  if l.isEmpty then "-" else " ; ".intercalate l
+
+def parseKey (s : String) : Option ClientKey :=
+  match s.splitOn ":" with
+  | [ip, port, sp, st] =>
+    match port.toNat?, sp.toNat?, st.toNat? with
+    | some port, some sp, some st => some ((ip, port), sp, st)
+    | _, _, _ => none
+  | _ => none
+
+/-- remove connections whose handler is done and whose close event is set (`start_client` finished) -/
+def sweep (t : ServerT) (leaving : List ClientKey) : ServerT × List ClientKey × List String :=
+  let gone := leaving.filter (fun k => t.streams.any (fun (_, s) =>
+    match clientLookup k s.clients with | some c => c.closeEvent || c.state != STATE_CONNECTED && c.state != STATE_DISCONNECTING | none => false))
+  let t' := { t with streams := t.streams.map (fun (pk, s) => (pk, { s with clients := s.clients.filter (fun (k, _) => !gone.contains k) })) }
+  (t', leaving.filter (fun k => !gone.contains k), gone.map (fun k => s!"removed {showKey k}"))
+
+/-- advance every connection of a server transport; outputs merged in time order -/
+def advanceSrv (env : Env) (t : ServerT) (now : Time) : ServerT × List (Time × String) :=
+  let (streams, outs) := t.streams.foldl (fun (acc : List (Nat × ServerStream) × List (Time × String)) (pk, s) =>
+    let (clients, o) := s.clients.foldl (fun (a : List (ClientKey × Conn) × List (Time × String)) (k, c) =>
+      let (c', os) := Conn.advance env 100000 now c
+      (a.1 ++ [(k, c')], a.2 ++ os.map (fun (tm, o) => (tm, match o with
+        | .emit ad _ d => s!"tx {showAddr ad} {hexOut d}"
+        | o => showOut (showKey k) o)))) ([], [])
+    (acc.1 ++ [(pk, { s with clients })], acc.2 ++ o)) ([], [])
+  ({ t with streams }, (outs.toArray.insertionSort (fun a b => a.1 < b.1)).toList)
+
+def showTimed (l : List (Time × String)) : String :=
+  if l.isEmpty then "-" else " ; ".intercalate (l.map (fun (t, s) => s!"@{t} {s}"))
+
+def connOf (ep : Ep) (name : String) : Option Conn :=
+  match ep with
+  | .cli _ t _ _ => (t.conns.head?).map (·.2)
+  | .srv _ t _ _ =>
+    match parseKey name with
+    | none => none
+    | some k => t.streams.findSome? (fun (_, s) => clientLookup k s.clients)
+
+/-- apply a connection-level step to the named connection of an endpoint -/
+def withConn (st : St) (epn : String) (ep : Ep) (name : String) (f : Env → Conn → R) : St × String :=
+  match ep with
+  | .cli en t loc rem =>
+    match lookupS en st.envs, t.conns.head? with
+    | some env, some (k, c) =>
+      let r := f env c
+      let t' := { t with conns := connSet k r.c t.conns }
+      ({ st with eps := setS epn (.cli en t' loc rem) st.eps }, joinOuts (r.outs.map (showOut "c")) r.err)
+    | _, _ => (st, "bad-op")
+  | .srv en t addr leaving =>
+    match lookupS en st.envs, parseKey name with
+    | some env, some k =>
+      match t.streams.find? (fun (_, s) => (clientLookup k s.clients).isSome) with
+      | some (pk, s) =>
+        match clientLookup k s.clients with
+        | some c =>
+          let r := f env c
+          let sr := s.liftConn k r
+          let t' := { t with streams := streamSet pk sr.s t.streams }
+          let (t'', leaving', rm) := sweep t' leaving
+          ({ st with eps := setS epn (.srv en t'' addr leaving') st.eps }, joinOuts (sr.outs.map showSOut ++ rm) sr.err)
+        | none => (st, "bad-op")
+      | none => (st, "no-conn")
+    | _, _ => (st, "bad-op")
+
+def showConn (c : Conn) : String :=
+  let wins := ",".intercalate (c.windows.map (fun w => s!"{w.next}/{"+".intercalate ((w.packets.map (·.1)).toArray.qsort (· < ·) |>.toList.map toString)}"))
+  let timers := match c.sched with
+    | none => "none"
+    | some s => ",".intercalate (s.events.map (fun (t : Timer) => s!"{t.handle}@{t.deadline}"))
+  let acks := ",".intercalate (c.ackEvents.map (fun (k, h) => s!"{k.1}.{k.2.1}.{k.2.2}={h}"))
+  s!"state={c.state} params={c.minorVer}/{c.maxSub}/{c.supFuncs} pid={match c.userPid with | some p => toString p | none => "none"} counters={",".intercalate (c.counters.map toString)} unrel={c.unrelCounter} wins={wins} frag={",".intercalate (c.fragBufs.map hexOut)} eof={if c.eof then 1 else 0} hs={if c.handshakeEvent then 1 else 0} close={if c.closeEvent then 1 else 0} rsid={match c.remoteSessionId with | some p => toString p | none => "none"} timers={timers} acks={acks}"
+
+def parseEnv (a : List String) : Option Env :=
+  match a.map String.toNat? with
+  | [some tr, some ver, some sv, some cv, some fv, _, some fs, some rt, some rl, some pt, some ms, some sf, some mv, some ps, some ks, some tv, some ep, _] =>
+    match fromHex (a.getD 5 ""), (a.getD 17 "").toInt? with
+    | some key, some tz =>
+      let s : Settings := { fragmentSize := fs, resendTimeout := rt, resendLimit := rl, pingTimeout := pt, maxSubstreamId := ms,
+                            supportedFunctions := sf, minorVersion := mv, transport := tr, version := ver, pidSize := ps }
+      let cfg : Prudp.Cfg := { v0 := { signatureVersion := sv, checksumVersion := cv, flagsVersion := fv, accessKey := key },
+                               sel := { transport := tr, version := ver } }
+      some (mkEnv s cfg { keySize := ks, pidSize := ps, ticketVersion := tv } ep tz)
+    | _, _ => none
+  | _ => none
+
+def step (st : St) (line : String) : St × String :=
+  match words line with
+  | "env" :: name :: rest =>
+    match parseEnv rest with
+    | some env => ({ st with envs := setS name env st.envs }, "ok")
+    | none => (st, "bad-op")
+  | ["cli", ep, env, lip, lport, rip, rport] =>
+    match lport.toNat?, rport.toNat? with
+    | some lp, some rp => ({ st with eps := setS ep (.cli env {} (lip, lp) (rip, rp)) st.eps }, "ok")
+    | _, _ => (st, "bad-op")
+  | ["srv", ep, env, ip, port, stream] =>
+    match port.toNat? with
+    | some p => ({ st with eps := setS ep (.srv env { isStream := stream == "1" } (ip, p) []) st.eps }, "ok")
+    | none => (st, "bad-op")
+  | ["bind", ep, vport, type, key] =>
+    match lookupS ep st.eps, vport.toNat?, type.toNat? with
+    | some (.srv en t addr lv), some vp, some ty =>
+      match lookupS en st.envs with
+      | some env =>
+        let k : Option Bytes := if key == "none" then none else fromHex key
+        let s : ServerStream := { key := k, supFuncs := env.s.supportedFunctions, maxSub := env.s.maxSubstreamId,
+                                  minorVer := env.s.minorVersion, addr, port := vp, type := ty }
+        ({ st with eps := setS ep (.srv en { t with streams := streamSet (portKey vp ty) s t.streams } addr lv) st.eps }, "ok")
+      | none => (st, "bad-op")
+    | _, _, _ => (st, "bad-op")
+  | ["link", ep, ip, port, up] =>
+    match lookupS ep st.eps, port.toNat? with
+    | some (.srv en t addr lv), some p =>
+      let a : Addr := (ip, p)
+      let links := if up == "1" then (if t.links.contains a then t.links else t.links ++ [a]) else t.links.filter (· != a)
+      -- a vanished stream takes the link of its connections down
+      let streams := t.streams.map (fun (pk, s) => (pk, { s with clients := s.clients.map (fun (k, c) =>
+        if k.1 == a then (k, { c with linkUp := up == "1" }) else (k, c)) }))
+      ({ st with eps := setS ep (.srv en { t with links, streams } addr lv) st.eps }, "ok")
+    | _, _ => (st, "bad-op")
+  | "connect" :: ep :: t :: vport :: type :: unrel :: check :: sid :: creds =>
+    match lookupS ep st.eps, t.toNat?, vport.toNat?, type.toNat?, unrel.toNat?, check.toNat?, sid.toNat? with
+    | some (.cli en ct loc rem), some now, some vp, some ty, some ur, some ck, some sd =>
+      match lookupS en st.envs with
+      | some env =>
+        let cr : Option (Option Creds) := match creds with
+          | ["none"] => some none
+          | [pid, cid, sk, internal] =>
+            match pid.toNat?, cid.toNat?, fromHex sk, fromHex internal with
+            | some pid, some cid, some sk, some internal => some (some ⟨pid, cid, sk, internal⟩)
+            | _, _, _, _ => none
+          | _ => none
+        match cr with
+        | none => (st, "bad-op")
+        | some cr =>
+          let nports := if env.s.transport = TRANSPORT_UDP then 16 else 32
+          let lport := ((List.range nports).reverse.find? (fun i => (connLookup (portKey i ty) ct.conns).isNone)).getD 0
+          let c := Conn.new env (some env.s.version) ur ck sd loc lport ty rem vp ty
+          let r := c.handshake env now cr
+          let ct' := { ct with conns := connSet (portKey lport ty) r.c ct.conns }
+          ({ st with eps := setS ep (.cli en ct' loc rem) st.eps }, joinOuts (r.outs.map (showOut "c")) r.err)
+      | none => (st, "bad-op")
+    | _, _, _, _, _, _, _ => (st, "bad-op")
+  | "dgram" :: ep :: t :: fip :: fport :: hex :: rnd =>
+    match lookupS ep st.eps, t.toNat?, fport.toNat?, fromHex hex with
+    | some (.cli en ct loc rem), some now, some _, some data =>
+      match lookupS en st.envs with
+      | some env =>
+        let r := ct.processData env now data
+        ({ st with eps := setS ep (.cli en r.t loc rem) st.eps }, joinOuts (r.outs.map (fun (_, o) => showOut "c" o)) r.err)
+      | none => (st, "bad-op")
+    | some (.srv en stt addr lv), some now, some fp, some data =>
+      match lookupS en st.envs with
+      | some env =>
+        let rn : Rnd := match rnd.map String.toNat? with
+          | [some a, some b, some c] => { initialUnrelId := a, connectionCheck := b, localSessionId := c }
+          | _ => {}
+        let r := stt.processData env now rn data (fip, fp)
+        let (t', lv', rm) := sweep r.t lv
+        ({ st with eps := setS ep (.srv en t' addr lv') st.eps }, joinOuts (r.outs.map showSOut ++ rm) r.err)
+      | none => (st, "bad-op")
+    | _, _, _, _ => (st, "bad-op")
+  | ["advance", ep, t] =>
+    match lookupS ep st.eps, t.toNat? with
+    | some (.cli en ct loc rem), some now =>
+      match lookupS en st.envs with
+      | some env =>
+        let (conns, outs) := ct.conns.foldl (fun (acc : List (Nat × Conn) × List (Time × String)) (k, c) =>
+          let (c', os) := Conn.advance env 100000 now c
+          (acc.1 ++ [(k, c')], acc.2 ++ os.map (fun (tm, o) => (tm, showOut "c" o)))) ([], [])
+        ({ st with eps := setS ep (.cli en { ct with conns } loc rem) st.eps }, showTimed outs)
+      | none => (st, "bad-op")
+    | some (.srv en stt addr lv), some now =>
+      match lookupS en st.envs with
+      | some env =>
+        let (t', outs) := advanceSrv env stt now
+        let (t'', lv', rm) := sweep t' lv
+        ({ st with eps := setS ep (.srv en t'' addr lv') st.eps }, showTimed (outs ++ rm.map (fun s => (now, s))))
+      | none => (st, "bad-op")
+    | _, _ => (st, "bad-op")
+  | ["send", ep, t, conn, sub, hex] =>
+    match lookupS ep st.eps, t.toNat?, sub.toNat?, fromHex hex with
+    | some e, some now, some sub, some data => withConn st ep e conn (fun env c => c.send env now data sub)
+    | _, _, _, _ => (st, "bad-op")
+  | ["sendu", ep, t, conn, hex] =>
+    match lookupS ep st.eps, t.toNat?, fromHex hex with
+    | some e, some now, some data => withConn st ep e conn (fun env c => c.sendUnreliable env now data)
+    | _, _, _ => (st, "bad-op")
+  | [op, ep, t, conn] =>
+    match lookupS ep st.eps, t.toNat? with
+    | some e, some now =>
+      match op with
+      | "close" => withConn st ep e conn (fun env c => c.close env now)
+      | "disconnect" => withConn st ep e conn (fun env c => c.disconnect env now)
+      | "aexit" => withConn st ep e conn (fun _ c => c.cleanup)
+      | "done" =>
+        -- the server handler returned: `disconnect()`, then the connection leaves the table once closed
+        match e, parseKey conn with
+        | .srv en stt addr lv, some k =>
+          let st' := { st with eps := setS ep (.srv en stt addr (lv ++ [k])) st.eps }
+          match lookupS ep st'.eps with
+          | some e' => withConn st' ep e' conn (fun env c => c.disconnect env now)
+          | none => (st, "bad-op")
+        | _, _ => (st, "bad-op")
+      | _ => (st, "bad-op")
+    | _, _ => (st, "bad-op")
+  | ["state", ep, conn] =>
+    match lookupS ep st.eps with
+    | some e => match connOf e conn with
+      | some c => (st, showConn c)
+      | none => (st, "no-conn")
+    | none => (st, "bad-op")
+  | _ => (st, "bad-op")
+
+def main : IO Unit := runState ({} : St) step
